@@ -923,18 +923,18 @@ func minimiseLayer(w *work, lc layerCase, fam [nSrc][]srcOpt, stillFails func(la
 		}
 		return false
 	}
-	for sh := 1; sh < cur.Shape; sh++ {
-		x := cur
-		x.Shape = sh
-		if try(x) {
-			break
-		}
-	}
 	for s := 0; s < nSrc; s++ {
 		if cur.Srcs[s] != nil {
 			x := cur
 			x.Srcs[s] = nil
 			try(x)
+		}
+	}
+	for sh := 1; sh < cur.Shape; sh++ {
+		x := cur
+		x.Shape = sh
+		if try(x) {
+			break
 		}
 	}
 	// move user sources down to the simplest free slot of the same family (file / flag)
